@@ -269,7 +269,9 @@ func (h *HttpServer) handleUnary(w http.ResponseWriter, r *http.Request) {
 	resultBatch, err := serializeResult(info.ResultSchema, resultVal.Interface())
 	if err != nil {
 		handlerErr = &RpcError{Type: "SerializationError", Message: err.Error()}
-		h.writeHttpError(w, http.StatusInternalServerError, handlerErr, info.ResultSchema)
+		// Like a handler failure: the handler's logs, then the one exception
+		// batch, each echoing the request id.
+		h.writeUnaryCapError(w, info, req.RequestID, logs, handlerErr)
 		return
 	}
 	// Use a closure so the final owner is released. A deferred method call
